@@ -52,7 +52,8 @@ REQUIRED_THEOREMS = [
     "Acn.C09.dump_each_object_once", "Acn.C09.roundtrip_store", "Acn.C09.sharing_preserved",
     "Acn.C09.roundtrip_resume_eq_partial", "Acn.C09.attrs_complete",
     "Acn.C09.encode_roundtrip", "Acn.C09.roundtrip_resume_eq_codec_partial", "Acn.C09.roundtrip_evs_decoded_partial",
-    "Acn.C09.decode_encode", "Acn.C09.decode_encode_iff", "Acn.C09.decode_encode_amb", "Acn.C09.roundtrip_resume_eq",
+    "Acn.C09.decode_encode", "Acn.C09.decode_encode_iff", "Acn.C09.decode_encode_amb",
+    "Acn.C09.roundtrip_resume_eq", "Acn.C09.roundtrip_iff",
     "Acn.C09.body_preserves_wf", "Acn.C09.reachable_wf", "Acn.C09.crash_json_resume_eq",
 ]
 BUDGET = {"quick": 40, "thorough": 450, "search": 120}
